@@ -69,6 +69,11 @@ def deviations(ctx):
                       name="dev_cache_toolfail", expect_violation=True), None))
     jobs.append((dict(module="ProfCache", cfg='CONSTANTS\n  NChunks = 4\n  Dev = {"InterruptEndsDump"}\nSPECIFICATION Spec\nINVARIANTS SecondRunSound ValidMeansComplete\nCHECK_DEADLOCK FALSE\n',
                       name="dev_cache_interrupt", expect_violation=True), None))
+    import histfam
+    for dev in ("TextKeyCache", "InstalledArchRecord", "FilterCache", "LazyAlias", "LogDegrades"):
+        j = histfam.mc_job(2, '{"%s"}' % dev, name="dev_hist_" + dev)
+        j["expect_violation"] = True
+        jobs.append((j, "Memoryless"))
     dcfg = 'CONSTANTS\n  Nums = {0, 1, 7}\n  TableNums = {0, 1}\n  Dev = %s\n  MaxLines = 3\nSPECIFICATION Spec\nINVARIANTS %s\nCHECK_DEADLOCK FALSE\n'
     jobs.append((dict(module="Disasm", cfg=dcfg % ('{"StaleErr"}', "ErrorNotPartial"), name="dev_disasm_err", expect_violation=True), "ErrorNotPartial"))
     jobs.append((dict(module="Disasm", cfg=dcfg % ('{"SliceFixed"}', "Total"), name="dev_disasm_panic", expect_violation=True), "Total"))
